@@ -714,6 +714,13 @@ class PathResolver:
         if isinstance(iter_expr, ast.Call) and isinstance(iter_expr.func, ast.Name) \
                 and iter_expr.func.id == 'filter' and len(iter_expr.args) == 2:
             return self._iter_elem_paths(iter_expr.args[1], idx, node)
+        if isinstance(iter_expr, ast.Call) and isinstance(iter_expr.func, ast.Attribute) and iter_expr.func.attr == 'copy' \
+                and not iter_expr.args and not (isinstance(iter_expr.func.value, ast.Name) and iter_expr.func.value.id == 'copy'):
+            return self._iter_elem_paths(iter_expr.func.value, idx, node)       # x.copy(): same elements
+        if isinstance(iter_expr, ast.Call) and isinstance(iter_expr.func, ast.Attribute) \
+                and isinstance(iter_expr.func.value, ast.Name) and iter_expr.func.value.id == 'copy' \
+                and iter_expr.func.attr == 'copy' and iter_expr.args:
+            return self._iter_elem_paths(iter_expr.args[0], idx, node)          # copy.copy(x)
         if isinstance(iter_expr, (ast.List, ast.Tuple)) and not idx:
             out = []
             for el in iter_expr.elts:
@@ -746,6 +753,8 @@ class PathResolver:
                     inner = v.func.value
                 elif isinstance(v, ast.Call) and isinstance(v.func, ast.Name) and v.func.id == 'zip':
                     inner = v
+                elif isinstance(v, ast.Call) and isinstance(v.func, ast.Name) and v.func.id == 'filter' and len(v.args) == 2:
+                    inner = v.args[1]
                 if inner is not None and self._depth < 20:
                     return self._iter_elem_paths(inner, idx, defs[0])
         # a local list filled by appends: its elements are what was appended
